@@ -290,11 +290,47 @@ func propC02(c *Ctx) {
 		// path-sensitive (pathsens.go): on every feasible path to the site the
 		// call has been executed and its error is known nil
 		pf := newPathFacts(commitFn)
+		// a step that lives in a function literal handed to the committing helper (a callback): it stands for
+		// the call of the literal, provided the literal returns nil only when the step did
+		liftTo := func(call *ssa.Call, fn *ssa.Function) (*ssa.Call, bool) {
+			if call.Parent() == fn {
+				return call, true
+			}
+			ch := m.reg.chain(call)
+			for i, at := range ch {
+				if at.Parent() != fn {
+					continue
+				}
+				anc, isCall := at.(*ssa.Call)
+				if !isCall {
+					return nil, false
+				}
+				for _, inner := range ch[i+1:] {
+					ic, isC := inner.(*ssa.Call)
+					if !isC || !nilOnlyAfter(ic) {
+						return nil, false
+					}
+				}
+				return anc, true
+			}
+			return nil, false
+		}
+		updAt, updOK := liftTo(upd, commitFn)
 		for i, cm := range commits {
-			ok, _ := pf.SucceededBefore(upd, cm)
+			ok := updOK
+			if ok {
+				ok, _ = pf.SucceededBefore(updAt, cm)
+			}
 			c.Check("R2.2", fmt.Sprintf("Converge/commit#%d←update", i+1), instrPos(cm), ok, "Commit of the write transaction is reached only after update returned nil")
 		}
-		ok, _ := pf.SucceededBefore(ins, upd)
+		ok := updOK
+		if ok {
+			if insAt, insOK := liftTo(ins, updAt.Parent()); insOK {
+				ok, _ = newPathFacts(updAt.Parent()).SucceededBefore(insAt, updAt)
+			} else {
+				ok = false
+			}
+		}
 		c.Check("R2.2", "Converge/update←insert", upd.Pos(), ok, "the cursor insert is reached only after the row insert returned nil")
 		// no write site after commit
 		writers := m.writers(sites)
@@ -785,4 +821,33 @@ func (m *convergeModel) isLatPosition(v ssa.Value) bool {
 	}
 	idx, path, ok := m.latOrigin(v)
 	return ok && idx == 0 && len(path) == 0
+}
+
+// nilOnlyAfter: the function holding `call` returns a nil error only when call returned a nil error: every
+// return hands back call's own error, a definite error, or nil on a path where call's error tested nil.
+func nilOnlyAfter(call *ssa.Call) bool {
+	fn := call.Parent()
+	e, has := errResult(call)
+	if !has || e == nil {
+		return false
+	}
+	nilE, _ := nilTestEdges(e)
+	for _, r := range returnsOf(fn) {
+		vals := returnValues(r)
+		if len(vals) == 0 {
+			return false
+		}
+		last := vals[len(vals)-1]
+		switch {
+		case last == e && dominatesInstr(call, r):
+		case isNilConst(last):
+			if !guardedByEdges(fn, r, nilE) {
+				return false
+			}
+		case definitelyNonNilError(last, nil):
+		default:
+			return false
+		}
+	}
+	return true
 }
